@@ -167,6 +167,45 @@ func exec(thread *starlark.Thread, h *host, src string) (o obs) {
 
 var watchdogAfter = 4 * time.Second
 
+const asyncSafety = 40000000
+
+// cancelSeq is a host iterable whose iterator cancels the thread when it yields element `at`.
+type cancelSeq struct {
+	th        *starlark.Thread
+	n, at     int
+	cancelled bool
+	after     int // elements fetched after the cancellation
+}
+
+func (s *cancelSeq) String() string        { return "cancelSeq" }
+func (s *cancelSeq) Type() string          { return "cancelSeq" }
+func (s *cancelSeq) Freeze()               {}
+func (s *cancelSeq) Truth() starlark.Bool  { return true }
+func (s *cancelSeq) Hash() (uint32, error) { return 0, fmt.Errorf("unhashable") }
+func (s *cancelSeq) Iterate() starlark.Iterator { return &cancelIter{s: s} }
+
+type cancelIter struct {
+	s *cancelSeq
+	i int
+}
+
+func (it *cancelIter) Next(p *starlark.Value) bool {
+	if it.i >= it.s.n {
+		return false
+	}
+	if it.s.cancelled {
+		it.s.after++
+	}
+	if it.i == it.s.at {
+		it.s.th.Cancel("r1")
+		it.s.cancelled = true
+	}
+	*p = starlark.MakeInt(it.i)
+	it.i++
+	return true
+}
+func (it *cancelIter) Done() {}
+
 // hostcall(f, x): host code calling back into Starlark on the same thread
 func hostcall(t *starlark.Thread, _ *starlark.Builtin, args starlark.Tuple, _ []starlark.Tuple) (starlark.Value, error) {
 	return starlark.Call(t, args[0], args[1:], nil)
@@ -318,7 +357,8 @@ type line struct {
 }
 
 type lifeE struct {
-	Ev   string      `json:"ev"` // cancel uncancel exec
+	Ev   string      `json:"ev"` // cancel uncancel setmax read exec
+	N    uint64      `json:"n,omitempty"`
 	C    int         `json:"c,omitempty"`
 	Prog string      `json:"prog,omitempty"`
 	Shp  *shape      `json:"shape,omitempty"`
@@ -547,15 +587,13 @@ func main() {
 			hx.Emit(line{Kind: "depth", Prog: "unbounded-rec-unlimited", Src: src, N: uint64(maxDepth), Obs: &obs{Res: res, Reason: reason, Steps: th.ExecutionSteps(), Depth: th.CallStackDepth()}, Viol: viol})
 		}
 	}
-	// life: scripted sequences on one thread
+	// life: scripted sequences on one thread: Cancel / Uncancel / SetMaxExecutionSteps / ExecutionSteps / execute
 	for li := 0; li < *nlife; li++ {
 		rr := r.Split()
 		var n uint64
-		pool := allProgs
 		switch rr.Intn(3) {
 		case 0:
 			n = 0
-			pool = okProgs
 		case 1:
 			n = uint64(1 + rr.Intn(60))
 		default:
@@ -565,11 +603,14 @@ func main() {
 		th.SetMaxExecutionSteps(n)
 		h := &host{}
 		var evs []lifeE
-		m := 2 + rr.Intn(7)
+		m := 2 + rr.Intn(8)
 		viol := ""
-		cur := -1 // reason in force per the property text
+		cur := -1        // reason in force per the property text
+		lim := n         // the limit last set
+		started := false // has the thread executed anything yet
+		unlimited := func() bool { return lim == 0 && !started || lim > 1<<40 }
 		for i := 0; i < m; i++ {
-			switch c := rr.Intn(5); {
+			switch c := rr.Intn(8); {
 			case c == 0:
 				x := 1 + rr.Intn(4)
 				th.Cancel(reasons[x])
@@ -581,7 +622,38 @@ func main() {
 				th.Uncancel()
 				cur = -1
 				evs = append(evs, lifeE{Ev: "uncancel"})
+			case c == 2 || c == 3:
+				// raise / lower / same / 0; has no effect on the cancellation state
+				st := th.ExecutionSteps()
+				var x uint64
+				switch rr.Intn(5) {
+				case 0:
+					x = st + uint64(1+rr.Intn(80))
+				case 1:
+					x = st / 2
+				case 2:
+					x = lim
+					if x > 1<<40 {
+						x = st + 30
+					}
+				case 3:
+					x = 0
+				default:
+					x = st + uint64(rr.Intn(int(*capN)))
+				}
+				if x == 0 && !started {
+					x = st + 50 // 0 before the first execution means "no limit": keep lives finite
+				}
+				th.SetMaxExecutionSteps(x)
+				lim = x
+				evs = append(evs, lifeE{Ev: "setmax", N: x})
+			case c == 4:
+				evs = append(evs, lifeE{Ev: "read", N: th.ExecutionSteps()})
 			default:
+				pool := allProgs
+				if unlimited() {
+					pool = okProgs
+				}
 				p := hx.Pick(rr, pool)
 				s := shapes[p.Name]
 				plan := map[int][]op{}
@@ -589,11 +661,15 @@ func main() {
 					k := 1 + rr.Intn(len(s.Idx))
 					plan[k] = [][]op{{{1 + rr.Intn(4)}}, {{0}}, {{1 + rr.Intn(4)}, {0}}, {{0}, {1 + rr.Intn(4)}}}[rr.Intn(4)]
 				}
-				if n == 0 && s.End == "inf" {
-					continue
+				if !unlimited() && s.End == "inf" && lim > *capN {
+					continue // beyond the measured prefix
 				}
 				h.plan = plan
 				before := th.ExecutionSteps()
+				if !started && lim == 0 {
+					lim = 1 << 63 // Call's one-time initialisation: 0 means none
+				}
+				started = true
 				o := exec(th, h, p.Src)
 				// property text: an execution started while a reason is in force stops at once with that reason
 				if cur >= 0 {
@@ -604,26 +680,42 @@ func main() {
 				if o.Depth != 0 {
 					viol = "call stack not empty after return"
 				}
+				if o.Res == "cancelled" && o.Reason == watchdogReason {
+					viol = fmt.Sprintf("event %d: nothing stopped the execution (limit %d, steps %d): the watchdog had to cancel it", i, lim, o.Steps)
+				}
 				for _, e := range h.log {
-					if n > 0 && e.Steps >= n {
-						viol = fmt.Sprintf("event %d: built-in entered at step %d with limit %d", i, e.Steps, n)
+					if e.Steps >= lim {
+						viol = fmt.Sprintf("event %d: built-in entered at step %d with limit %d", i, e.Steps, lim)
 					}
-				}
-				// what is in force afterwards: recomputed by the Coq side; here only the easy case
-				if o.Res == "cancelled" && cur < 0 {
-					cur = o.Reason
-				}
-				if o.Res == "cancelled" {
-					// the scripted built-in may have uncancelled afterwards; keep it simple: re-read through a probe
 				}
 				sc := s
 				oo := o
 				evs = append(evs, lifeE{Ev: "exec", Prog: p.Name, Shp: &sc, Plan: plan, Obs: &oo})
+				if o.Res == "cancelled" && o.Reason == watchdogReason {
+					i = m // the rest of the life is meaningless
+					break
+				}
 				// a scripted plan may change what is in force; recompute from the observation of a trivial probe
 				cur = probeReason(th, &evs)
 			}
 		}
 		hx.Emit(line{Kind: "life", N: n, Life: evs, Coq: li < *coqBudget/10+20, Viol: viol})
+	}
+	// itercancel: host code that is not a call (an iterator's Next) cancels in the middle of a loop whose body makes no calls
+	for _, at := range []int{0, 1, 5, 40} {
+		th := &starlark.Thread{}
+		th.SetMaxExecutionSteps(20000)
+		seq := &cancelSeq{th: th, n: 200, at: at}
+		_, err := starlark.ExecFileOptions(opts, th, "p.star", "x = 0\nfor i in seq:\n    x += i\n", starlark.StringDict{"seq": seq})
+		res, reason := classify(err)
+		viol := ""
+		if seq.after > 0 {
+			viol = fmt.Sprintf("the loop fetched %d more elements after the iterator's Next had cancelled the thread", seq.after)
+		}
+		if res != "cancelled" || reason != 1 {
+			viol = fmt.Sprintf("cancelled by Next at element %d: result %s/%d", at, res, reason)
+		}
+		hx.Emit(line{Kind: "itercancel", Prog: "for-no-calls", N: uint64(at), Obs: &obs{Res: res, Reason: reason, Steps: th.ExecutionSteps()}, Viol: viol, Src: "x = 0\nfor i in seq:\n    x += i\n  # seq: host iterable of 200 ints whose Next cancels the thread (reason r1) when it yields element N"})
 	}
 	// async: Cancel from another goroutine at a random moment
 	for ai := 0; ai < *nasync; ai++ {
@@ -637,6 +729,7 @@ func main() {
 		p := hx.Pick(rr, inf)
 		h := &host{}
 		th := &starlark.Thread{}
+		th.SetMaxExecutionSteps(asyncSafety) // only reached if the cancellation is not observed
 		delay := time.Duration(rr.Intn(3000)) * time.Microsecond
 		two := rr.Intn(3) == 0
 		var mark int64 = -1
@@ -666,6 +759,9 @@ func main() {
 		}
 		if o.Res != "cancelled" || !(o.Reason == 1 || (two && o.Reason == 2)) {
 			viol = fmt.Sprintf("result %s/%d (%s)", o.Res, o.Reason, o.Msg)
+			if o.Res == "cancelled" && o.Reason == 0 {
+				viol = fmt.Sprintf("cancelled from another goroutine after %v but ran on to the safety limit of %d steps", delay, uint64(asyncSafety))
+			}
 		}
 		// cancellation stays in force, with the same reason
 		o2 := exec(th, h, "b()\n")
